@@ -340,6 +340,23 @@ class RecorderPolicy(RepoPolicy):
             return Target('opaque', t.label, raises=self.excm.all, role='plugin')
         return t
 
+    def call_target(self, call, frame, for_with=False):
+        # turning the caller's own arguments into text runs their __repr__ / __str__ / __format__: user code that may raise
+        f = call.func
+        fmt = (isinstance(f, ast.Attribute) and f.attr == 'format' and isinstance(f.value, ast.Constant) and isinstance(f.value.value, str)) or \
+            (isinstance(f, ast.Name) and f.id in ('repr', 'str', 'format', 'unicode'))
+        if fmt:
+            star = set()
+            fn = frame.func
+            while fn is not None:
+                a = fn.node.args
+                star |= {x.arg for x in (a.vararg, a.kwarg) if x is not None}
+                fn = getattr(fn, 'parent', None)
+            used = [x for x in list(call.args) + [k.value for k in call.keywords] if isinstance(x, ast.Name) and x.id in star]
+            if used:
+                return Target('opaque', 'format-user-arguments:' + norm(call)[:60], raises=self.excm.ordinary, role='lib')
+        return RepoPolicy.call_target(self, call, frame, for_with=for_with)
+
     def unknown_receiver(self, recv, meth, call, frame):
         # consuming a value produced by user code with an operation that has type requirements may raise
         # (dict.update / list.extend of a junk extractor result): a tolerated fault that must be contained
